@@ -105,3 +105,21 @@ Proof. exact noninterference_labels. Qed.
     (Proofs/NonInterference.v, NIExamples: fresh1 / with_y / without_y, not_fresh2 / with_def2). *)
 Theorem C08_zderived : forall z n, zderived z n = true <-> n = z \/ exists p, n = p ++ dot ++ z.
 Proof. exact zderived_spec. Qed.
+
+(** Consistent renaming.  Rename the name [z] to a fresh name [z'] throughout a node list (every
+    definition [z:], [z = e], every identifier [z] or [scope.z] of every expression): the assembly
+    fails with the same kind of error or succeeds with the same writer blocks, and the labels are
+    the original ones with renamed keys.  [z], [z'] contain no '.'; no name of the list and no key of
+    the start state is z'-derived (otherwise the renaming captures: RenExamples in
+    Proofs/Renaming.v), and the start state and .incbin names (not renamed) are not z-derived. *)
+From A816 Require Import Proofs.RenamingExpr Proofs.Renaming.
+Theorem C08_renaming : forall w r z z' ns,
+  nodot z = true -> nodot z' = true ->
+  ren_fresh z z' ns = true -> state_untouched z z' r = true ->
+  match assemble_nodes w r ns, assemble_nodes w r (rename_nodes (ren z z') ns) with
+  | Ok o1, Ok o2 => o_blocks o2 = o_blocks o1 /\ o_labels o2 = map_keys (ren z z') (o_labels o1)
+  | Err j, Err k => j = k
+  | OutOfFuel, OutOfFuel => True
+  | _, _ => False
+  end.
+Proof. exact renaming. Qed.
